@@ -300,8 +300,8 @@ class MergeFlow(Engine):
         self.check_frame(st, node, 'setitem', parent, node_)
         self.check_share(st, node, 'setitem', parent, node_)
         self.root_op(st, 'setitem', parent, node_)
-        if isinstance(idx, Ref):
-            st.mon['setidx'] = (st.mon.get('setidx') or ()) + (idx.sym,)
+        if isinstance(idx, Ref) and self.role[0] == 'SWAP':
+            st.mon['setidx'] = ((st.mon.get('setidx') or ()) + (idx.sym,))[-4:]
         if self.owner(parent, st) == 'COPY':
             self.count('copy-mutation', st, node)
             if isinstance(node_, Ref) and node_.kind == 'elem' and st.get(node_.sym).prov not in ('COPY',):
